@@ -186,10 +186,10 @@ def _propagate_plain(ft: FnTaint):
                 changed |= ft.bind(node.target, ft.is_tainted(node.value))
 
 
-def rule_effect(prog, rep, fns):
-    rep.rule("C14.effect", "methods contain no global/nonlocal write, no attribute assignment, no mutation of "
+def rule_effect(prog, rep, fns, R="C14.effect", minimum=100):
+    rep.rule(R, "methods contain no global/nonlocal write, no attribute assignment, no mutation of "
                            "module-level state and no call into random / numpy.random / time / os / file IO "
-                           "(same arguments and key => same result)", minimum=100)
+                           "(same arguments and key => same result)", minimum=minimum)
     for m, c, fn in fns:
         qual = f"{m.name}.{(c.name + '.') if c else ''}{fn.name}"
         bad = []
@@ -209,6 +209,6 @@ def rule_effect(prog, rep, fns):
                     bad.append((node.lineno, f"call to {f}"))
         if bad:
             for line, what in bad:
-                rep.violated("C14.effect", f"{m.relpath}:{line}", f"{qual}:{what}", f"{what} inside a method that must be pure")
+                rep.violated(R, f"{m.relpath}:{line}", f"{qual}:{what}", f"{what} inside a method that must be pure")
         else:
-            rep.holds("C14.effect", f"{m.relpath}:{fn.lineno}", qual, "no effect")
+            rep.holds(R, f"{m.relpath}:{fn.lineno}", qual, "no effect")
